@@ -6,3 +6,5 @@ c=$1; p=$2
 git -C /repo show "$c" -- src | git -C /repo apply -R || exit 9
 ( cd /verif && timeout 1200 python3 bin/check "$p" --tier quick 2>&1 | grep -E "VIOLATION|KNOWN-FINDING|OK \(|violation" | cut -c1-260 | head -8 )
 git -C /repo checkout -- . && ( cd /verif/harness && CARGO_TARGET_DIR=/verif/harness/target CARGO_NET_OFFLINE=true cargo build --offline >/dev/null 2>&1 )
+# the run above rewrote the evidence file from a modified tree: put the committed one back
+git -C /verif checkout -- evidence/$p.json 2>/dev/null; rm -f /verif/evidence/replays/$p-*.json
